@@ -56,6 +56,14 @@ def main():
     # manifold classifier: spin-1/2, L=2, total 0: bond has charges +1,-1 each once -> E
     assert refs.classify_manifold([1, -1], 2, 0, 0, [np.array([0]), np.array([1, -1]), np.array([0])]) == 'E'
     assert refs.classify_manifold([1, -1], 4, 0, 2, [np.array([0]), np.array([1, -1]), np.array([2, 0]), np.array([1, 3]), np.array([2])]) in ('M', 'N')
+    # size-independent references agree with the dense ones
+    from . import gen
+    r2 = np.random.default_rng(11)
+    a = gen.rand_mps(r2, [1, -1], 5, 'random', 4)
+    b = gen.rand_mps(r2, [1, -1], 5, 'max', 4, qL=int(a.qD[-1][0]))
+    Hx = gen.model('xxz', 5, (0.3, 1.1, -0.4))
+    assert abs(refs.mps_overlap(a.A, b.A) - np.vdot(refs.dense_state(a.A), refs.dense_state(b.A))) < 1e-13
+    assert abs(refs.mpo_element(a.A, Hx.A, b.A) - np.vdot(refs.dense_state(a.A), refs.dense_operator(Hx.A) @ refs.dense_state(b.A))) < 1e-13
     print('selfcheck ok')
     return 0
 
